@@ -63,7 +63,7 @@ ASSUMPTIONS = [
     'known defects of C11 are matched by their own signatures: every valid LIS file fails (C11-lis-null-value)',
 ]
 SHARDS = {'quick': 4, 'thorough': 16}
-REQUIRED_CLASSES = {'nontrivial': 1, 'jobs>1': 1, 'foreign-file': 1, 'damaged-sorts-first:names': 1, 'damaged-sorts-first:sizes': 1, 'empty-file': 1,
+REQUIRED_CLASSES = {'sub-directories:two-levels-down-recursive': 1, 'nontrivial': 1, 'jobs>1': 1, 'foreign-file': 1, 'damaged-sorts-first:names': 1, 'damaged-sorts-first:sizes': 1, 'empty-file': 1,
                     'converter:RP66V1': 1, 'converter:LIS': 1, 'converter:BIT': 1, 'orders-differ': 1}
 
 O_ESCAPE = 'no-exception-escapes'
@@ -195,6 +195,12 @@ def directories(draw, converter, tier):
     else:
         for i, f in enumerate(files):
             f['name'] = names[i]
+    # sub-directories (up to three levels down) in one directory out of three; the walk is then recursive three times out of four
+    recurse = False
+    if draw(st.integers(0, 2)) == 0:
+        for f in files:
+            f['dir'] = draw(st.sampled_from(['', '', 'sub', 'sub/deep', 'sub/deep/er', 'other', 'other/x']))
+        recurse = draw(st.integers(0, 3)) != 0
     jobs = list(JOBS) if tier == 'thorough' else sorted(draw(st.lists(st.sampled_from(JOBS), min_size=2, max_size=2, unique=True)))
     # channel request: empty, or plain channel names of the valid files (the index channels are never asked for)
     channels = []
@@ -209,7 +215,7 @@ def directories(draw, converter, tier):
                             channels.append(nm)
         if not channels:
             channels = ['NOSUCH']
-    return {'converter': converter, 'files': files, 'jobs': jobs, 'channels': channels,
+    return {'converter': converter, 'files': files, 'jobs': jobs, 'channels': channels, 'recurse': recurse,
             'reduction': draw(st.sampled_from(('first', 'mean', 'max'))), 'width': draw(st.sampled_from((12, 16, 20))),
             'float_format': draw(st.sampled_from(('.3f', '.2f', '.6g')))}
 
@@ -300,7 +306,12 @@ def check(case, cc):
     conv = case['converter']
     files = case['files']
     datas = [file_bytes(f) for f in files]
-    names = [f['name'] for f in files]
+    names = [os.path.join(f.get('dir', ''), f['name']) for f in files]     # relative to the input directory
+    recurse = bool(case.get('recurse'))
+    walked = [i for i in range(len(files)) if recurse or not files[i].get('dir')]      # the files a walk of the directory finds
+    cc.cls('sub-directories', any(f.get('dir') for f in files))
+    cc.cls('sub-directories:two-levels-down-recursive', recurse and any(f.get('dir', '').count('/') >= 1 for f in files))
+    cc.cls('sub-directories:not-recursive', not recurse and any(f.get('dir') for f in files))
     if len(set(names)) != len(names):
         raise HarnessError('duplicate file names generated')
     sizes = [len(d) for d in datas]
@@ -355,6 +366,7 @@ def check(case, cc):
         dir_in = os.path.join(tmp, 'in')
         os.makedirs(dir_in)
         for nm, d in zip(names, datas):
+            os.makedirs(os.path.dirname(os.path.join(dir_in, nm)), exist_ok=True)
             with open(os.path.join(dir_in, nm), 'wb') as fh:
                 fh.write(d)
         paths = [os.path.join(dir_in, nm) for nm in names]
@@ -379,6 +391,8 @@ def check(case, cc):
         union = {}
         collide = set()
         for i in by_name:
+            if i not in walked:
+                continue
             for k, v in solo_trees.get(i, {}).items():
                 if k in union and union[k] != v:
                     collide.add(k)
@@ -400,19 +414,19 @@ def check(case, cc):
         # ---- (b) sequential, (c) multiprocessing
         modes = []
         out_seq = os.path.join(tmp, 'out_seq')
-        res, err = guarded(lambda: WriteLAS.convert_dir_or_file_to_las(dir_in, out_seq, False, args[0], args[1], set(case['channels']), tail[0], tail[1], fn))
+        res, err = guarded(lambda: WriteLAS.convert_dir_or_file_to_las(dir_in, out_seq, recurse, args[0], args[1], set(case['channels']), tail[0], tail[1], fn))
         modes.append(('sequential', res, err, out_seq))
         for j in case['jobs']:
             out_j = os.path.join(tmp, 'out_j%d' % j)
             res, err = guarded(lambda: WriteLAS.convert_dir_or_file_to_las_multiprocessing(
-                dir_in, out_j, False, args[0], args[1], set(case['channels']), tail[0], tail[1], j, fn))
+                dir_in, out_j, recurse, args[0], args[1], set(case['channels']), tail[0], tail[1], j, fn))
             modes.append(('jobs=%d' % j, res, err, out_j))
         trees, results = {}, {}
         for mode, res, err, out in modes:
             if err is not None:
                 report_escape(dev, err, '%s: %s conversion' % (what, mode), 'directory')
                 continue
-            if sorted(res) != sorted(paths):
+            if sorted(res) != sorted(paths[i] for i in walked):
                 dev(O_KEYS, 'result-keys:' + ('sequential' if mode == 'sequential' else 'multiprocessing'),
                     '%s: %s returned results for %r' % (what, mode, sorted(os.path.basename(k) for k in res)))
                 continue
@@ -420,7 +434,7 @@ def check(case, cc):
             results[mode] = res
         # ---- output trees against the union of the solo conversions
         ref = union
-        complete = len(solo_trees) == len(files)
+        complete = all(i in solo_trees for i in walked)
         grows = set()           # modes whose difference has the form of the known growing channel request
         for mode, tree in trees.items():
             if not complete or tree == ref:
@@ -442,6 +456,8 @@ def check(case, cc):
         # ---- results against the solo results
         for mode, res in results.items():
             for i in by_name:
+                if i not in walked:
+                    continue
                 r = res[paths[i]]
                 if r.path_input != paths[i]:
                     dev(O_KEYS, 'result-path-mismatch', '%s: %s: result under key %r names %r' % (what, mode, names[i], r.path_input))
